@@ -133,6 +133,11 @@ FORMS = {
     "not_equals": "not_equals(a, b)",
     "in_set": "a in <<b>>",
     "in_list": "a in [b]",
+    # the library's membership functions decide equality like ==
+    "contains_list": "contains([b], a)", "contains_set": "contains(<<b>>, a)",
+    "count_list": "count([b, 0, b], a) >= 2",
+    "find_list": "find(['x', b], a) == 1",
+    "unique_pair": "length(List->unique([a, b])) == 1",
     "map_get": "<<<identity(a) => 1>>>[b, 'nf']",
     "set_len": "length(<<a, b>>)",
     "map_len": "length(<<<identity(a) => 1, identity(b) => 2>>>)",
@@ -157,7 +162,7 @@ def forms():
         for k, v in HISTORY.items():
             allf["hist:" + k] = ("do def h = " + v + "; def f = " +
                                  FRESH[k] + "; " + PROBE + " end")
-        _F["f"] = core.Forms(allf)
+        _F["f"] = core.Forms(allf, prelude="require List;")
     return _F["f"]
 
 
@@ -277,7 +282,10 @@ def explore_pairs(chunk):
                 for name, want in (("eq", ab), ("is", ab), ("equals", ab),
                                    ("ne", not ab), ("ne2", not ab),
                                    ("not_equals", not ab),
-                                   ("in_set", ab), ("in_list", ab)):
+                                   ("in_set", ab), ("in_list", ab),
+                                   ("contains_list", ab),
+                                   ("contains_set", ab), ("count_list", ab),
+                                   ("find_list", ab), ("unique_pair", ab)):
                     r = f.ev(name, a=a, b=b)
                     agg.count("steps")
                     if not (r[0] == "value" and
